@@ -59,6 +59,7 @@ def explore(ck):
         if k % 4 == 1 and len(blocks) > 2:
             # the blk file ends inside the last block: the run fails there, the lines of the earlier blocks have been printed
             o, dta = c.files[0][-1]; c.files[0][-1] = (o, dta[:len(dta) - len(blocks[-1].raw) // 2]); c.meta['cut'] = True
+        if k % 3 == 1: c.verbosity = 1          # -v
         if k % 3 == 0: c.verbosity = 2          # -vv: debug/trace output interleaved with the lines must change neither the lines nor the exit status
         c.meta['blocks'] = blocks; cases.append(c)
     def nontrivial(c, m):
